@@ -107,6 +107,10 @@ def pca(X, centre=True, inplace=False, eps=1e-10):
     else:
         m = np.zeros(d, dtype=X.dtype)
 
+    if inplace and not np.issubdtype(X.dtype, np.inexact):
+        # integer (or boolean) data can hold neither the centred data nor the
+        # rescaled eigenvectors: work on a floating point copy instead
+        inplace = False
     # This is required if the data matrix is very large!
     if inplace:
         X -= m
